@@ -156,7 +156,10 @@ def file_value(rng, o):
     if c == 'CBool':
         return bool_word(rng, rng.random() < 0.5)
     if c == 'CMulti':
-        return ' '.join(rng.choice([word(rng), word(rng), '#' + word(rng), ';' + word(rng), '#', ';']) for _ in range(rng.randint(0, 3))).strip()
+        # words may be quoted (a blank inside a list entry) or carry an escaped blank: shell-like syntax, quotes are not part of the entry
+        return ' '.join(rng.choice([word(rng), word(rng), '#' + word(rng), ';' + word(rng), '#', ';', '"%s %s"' % (word(rng), word(rng)),
+                                    "'%s'" % word(rng), '%s\\ %s' % (word(rng), word(rng)), 'pre"%s x"' % word(rng), '""'])
+                        for _ in range(rng.randint(0, 3))).strip()
     return ', '.join('%s%s=%s%s' % (rng.choice(['', ' ']), dkey(rng), rng.choice(['', ' ']), entry_value(rng, c)) for _ in range(rng.randint(1, 3)))
 
 
